@@ -193,8 +193,13 @@ def run_impl(ps, keys):
             raised = False
             entered = False
             try:
-                with numpoly.global_options(**kwargs(kw)):
+                with numpoly.global_options(**kwargs(kw)) as handle:
                     entered = True
+                    if isinstance(handle, dict):
+                        # what the block hands out is a detached copy: writing to it (a valid key the block did not
+                        # set, and an unknown key) must not touch the options - no model step corresponds to this
+                        handle[names[3]] = alt(defaults0[names[3]])
+                        handle["no_such_option"] = 4
                     o = obs(0)
                     trace.append(o)
                     if sorted(o[1]) != expect_update(before, kw):
